@@ -487,16 +487,16 @@ func (h *histRun) checkAccessCurrency() {
 			continue
 		}
 		type grant struct {
-			ans, done int64
-			get       bool
-			call      string
+			ans, done, reqT int64
+			get             bool
+			call            string
 		}
 		grants := map[string][]grant{}
 		for _, r := range reqs {
 			if r.Kind != "access" || r.CID != c.CID || !r.Done || r.IsHTTP {
 				continue
 			}
-			g := grant{ans: r.AnsT, done: r.DoneT}
+			g := grant{ans: r.AnsT, done: r.DoneT, reqT: r.T}
 			if r.Outcome == "reply" {
 				var p struct {
 					Result *struct {
@@ -567,6 +567,20 @@ func (h *histRun) checkAccessCurrency() {
 					}
 					if !sep {
 						raced = true
+					}
+				}
+				// an answer to a request that was sent before a token change
+				// (on a connection that had a token) speaks for the old token,
+				// whenever it arrives: not valid once the gateway has absorbed
+				// the token event (idle point between the event and the use)
+				for ti, ts := range h.tokens[c.Idx] {
+					if ti == 0 || ts.T <= gs[i].reqT {
+						continue
+					}
+					for _, pp := range h.ppoints {
+						if pp > ts.T && pp < useT {
+							fresh = false
+						}
 					}
 				}
 				if fresh {
